@@ -546,6 +546,7 @@ class Wire:
         n = len(data)
         k = n
         if self.short_write is not None:
+            self.current_write = data
             k = self.short_write(n, self.writes - 1)
         acc = as_sym(data)[:k]
         self.written.append(acc)
